@@ -22,7 +22,7 @@ ASSUMPTIONS = [
 ]
 SHARDS = {"quick": 1, "thorough": 16}
 
-N_GRID = sorted({int(round(10 ** (e / 4))) for e in range(0, 37)})
+N_GRID = sorted({int(round(10 ** (e / 4))) for e in range(0, 37)} | {1.5, 2.5, 10 ** 0.25, 31.6, 99.9, 1000.5, 10 ** 6.5})  # effective sample sizes need not be whole
 P_GRID = [0.0, 1e-12, 1e-6, 0.001, 0.01, 0.05, 0.1, 0.2, 0.25, 0.3, 1 / 3, 0.4, 0.5, 0.6, 2 / 3, 0.75, 0.9, 0.99, 0.999999, 1 - 1e-12, 1.0]
 C_GRID = [1e-6, 0.001, 0.1, 0.5, 0.8, 0.9, 0.95, 0.99, 0.999, 0.9999, 0.999999, 1 - 1e-9, 1 - 1e-12]
 METHODS = ["agresti-coull", "wald", "Agresti-Coull", "WALD", "Wald", "AGRESTI-COULL", "aGrEsTi-cOuLl"]
@@ -75,6 +75,12 @@ def judge_ci(case):
         alts.append(("p as the int %d" % int(p), (n, int(p), conf, method)))
     if isinstance(n, int) and n < 2 ** 53:
         alts.append(("n as the float %r" % float(n), (float(n), p, conf, method)))
+    if isinstance(conf, float):
+        import decimal
+        import fractions
+
+        if isinstance(n, int):
+            alts.append(("n and p as exact numbers", (fractions.Fraction(n), p, conf, method)))
     for what, args in alts:
         try:
             r = tuple(S.confidence_interval(*args))
